@@ -153,6 +153,9 @@ fn variants(rng: &mut Rng, k: u32) -> Vec<(&'static str, String)> {
         ("pipefail", "set -o pipefail; { exit 7; } | rc 0; echo \"?=$?\"; set +o pipefail".to_string()),
         ("big-here-doc", format!("sink 0 0 <<'EOF'\n{big}EOF")),
         ("big-pipe", format!("gen 70000 {k} 4096 0 0 | relay 1000 | sink {k} 0 333")),
+        // a writer that is certain to find the (real: 64 KiB) pipe full: the
+        // reader takes 48 bytes at a time
+        ("big-pipe", format!("gen 200000 {k} 16384 0 0 | relay 48 | sink {k} 0 4096")),
         // two processes share one end of a pipe (and with it the O_NONBLOCK flag
         // that the shell sets temporarily); more data than any pipe buffers
         ("shared-pipe-end", format!("{{ recs A {} 512 & recs B 170 512; wait; }} | recsink 512; echo \"?=$?\"", 150 + k % 7)),
@@ -381,6 +384,11 @@ fn read_tree(root: &std::path::Path, rel: &str, out: &mut Tree) {
     }
 }
 
+thread_local! {
+    /// set by `run_real` when the real shell did not finish within 10 s
+    static REAL_TIMED_OUT: std::cell::Cell<bool> = const { std::cell::Cell::new(false) };
+}
+
 /// Runs the script with the real shell glue on the real kernel in a fresh
 /// scratch directory. None = could not run (harness problem) or timed out.
 pub fn run_real(c: &Case) -> Option<Outcome> {
@@ -450,6 +458,7 @@ pub fn run_real(c: &Case) -> Option<Outcome> {
             Ok(Some(s)) => break Some(s),
             Ok(None) => {
                 if start.elapsed().as_secs() > 10 {
+                    REAL_TIMED_OUT.with(|f| f.set(true));
                     unsafe { libc::kill(-group, libc::SIGKILL) };
                     child.kill().ok();
                     child.wait().ok();
@@ -593,7 +602,22 @@ fn differential(c: &Case, seed: u64, index: u64, schedules: u32, stats: Option<&
     }
     let sim = first.unwrap();
     // 2. real kernel, twice
+    REAL_TIMED_OUT.with(|f| f.set(false));
     let Some(r1) = run_real(c) else {
+        // A program that ends under every schedule of the simulated system
+        // (within milliseconds of simulated time) but not within 10 s on the
+        // real one, twice: the two systems differ in whether the shell ends.
+        if REAL_TIMED_OUT.with(|f| f.get()) && run_real(c).is_none() && REAL_TIMED_OUT.with(|f| f.get()) {
+            stats.count("real-side-hangs", 1);
+            let mut feats: Vec<&str> = c.tags.iter().map(String::as_str).filter(|t| !t.is_empty()).collect();
+            feats.sort();
+            feats.dedup();
+            let detail = format!(
+                "simulated: stdout {:?} status {} under every schedule; real: the shell did not finish within 10 s (two attempts)",
+                sim.stdout, sim.status
+            );
+            return (Some(("divergence:real-hang".into(), format!("real-hang@{}", feats.join("+")), detail)), true);
+        }
         stats.count("discarded:real-run-failed-or-timed-out", 1);
         return (None, false);
     };
